@@ -7,8 +7,8 @@
 // completion notice), idle limits fire, the scheduler is reloaded or stopped,
 // the seeder disappears, and tasks are paused. Oracle: every call returns by
 // the bound after faults stop; nil => the blob is in the local cache with the
-// exact bytes at the return instant (unless a removal of that digest was
-// requested after the call began); an error is one of not-found, timeout,
+// exact bytes at the return instant (unless a removal of that digest overlapped
+// or followed the call: it had not returned when the call began); an error is one of not-found, timeout,
 // removed, stopped, or a create-torrent error explained by an injected fault.
 package c17
 
@@ -27,8 +27,8 @@ import (
 
 	"kverif/cluster"
 	"kverif/kit"
-	"kverif/simhttp"
 	simrt "kverif/sim"
+	"kverif/simhttp"
 )
 
 type call struct {
@@ -49,13 +49,13 @@ type removal struct {
 }
 
 type world struct {
-	s        *simrt.Sim
-	c        *cluster.Cluster
-	blobs    [][]byte
-	digests  []core.Digest
-	calls    []*call
-	removals []*removal
-	stopped  map[int]int64 // agent -> seq of Stop/Reload invocation
+	s          *simrt.Sim
+	c          *cluster.Cluster
+	blobs      [][]byte
+	digests    []core.Digest
+	calls      []*call
+	removals   []*removal
+	stopped    map[int]int64 // agent -> seq of Stop/Reload invocation
 	httpFaulty bool
 }
 
@@ -72,19 +72,42 @@ func (w *world) download(ai, bi int) {
 		if bi >= len(w.blobs) {
 			w.s.Fail("success_for_unknown_blob", "call#%d: Download of a digest nobody holds returned nil", cl.id)
 		}
-		removedSince := false
-		for _, r := range w.removals {
-			if r.agent == ai && r.blob == bi && r.seq > cl.beginSeq {
-				removedSince = true
+		// The cache read below is itself a sequence of scheduling points, so a
+		// RemoveTorrent requested while it runs (the removal task is not blocked
+		// by this one) can delete the blob under it. Removals are recorded before
+		// RemoveTorrent is invoked, so the list is consulted again after the
+		// read: only an absence that no removal since the call began can explain
+		// is a violation.
+		//
+		// A removal counts when it overlaps the call or follows it: requested
+		// at any time, but not yet returned when the call began. RemoveTorrent
+		// and Download are concurrent operations then, and "Download succeeded,
+		// then the removal took effect" is a legal order that the harness
+		// cannot tell apart from the other one at the API.
+		removedSince := func() bool {
+			for _, r := range w.removals {
+				if r.agent == ai && r.blob == bi && (r.doneSeq == 0 || r.doneSeq > cl.beginSeq) {
+					return true
+				}
 			}
+			return false
 		}
-		if !removedSince {
+		if !removedSince() {
 			got, rerr := a.ReadCache(w.digests[bi])
-			if rerr != nil {
+			switch {
+			case rerr == nil && bytes.Equal(got, w.blobs[bi]):
+			case removedSince():
+				w.s.Probe("removal_during_cache_read")
+			case rerr != nil:
 				w.s.Fail("success_without_blob", "call#%d agent%d: Download returned nil but the blob is not in the local cache: %v", cl.id, ai+1, rerr)
-			}
-			if !bytes.Equal(got, w.blobs[bi]) {
-				w.s.Fail("wrong_bytes", "call#%d agent%d: cached copy differs from the blob", cl.id, ai+1)
+			case w.staleWriter(cl) && bytes.Contains([]byte(describeDiff(got, w.blobs[bi], w.c.P.PieceLength)), []byte("all zero")):
+				// Known finding C17-paused-piece-writer (known_findings.json):
+				// a task stalled inside agentstorage.(*Torrent).WritePiece,
+				// between the write of the piece and the write of its status,
+				// outlived the removal and re-creation of the download file.
+				w.s.Fail("wrong_bytes_paused_piece_writer", "call#%d agent%d: cached copy differs from the blob (%s) after a piece writer was stalled inside WritePiece for >= 1s", cl.id, ai+1, describeDiff(got, w.blobs[bi], w.c.P.PieceLength))
+			default:
+				w.s.Fail("wrong_bytes", "call#%d agent%d: cached copy differs from the blob (%s)", cl.id, ai+1, describeDiff(got, w.blobs[bi], w.c.P.PieceLength))
 			}
 		} else {
 			w.s.Probe("success_with_concurrent_removal")
@@ -320,6 +343,38 @@ func body(s *simrt.Sim, tier string) {
 		"leecher_tti": sc.LeecherTTI.String(), "seeder_tti": sc.SeederTTI.String(), "faulty": faulty})
 }
 
+// staleWriter reports whether, before call cl returned, an injected pause held
+// a task for at least a second inside agentstorage.(*Torrent).WritePiece: the
+// one call site whose stalled writer can mark a piece complete in a download
+// file that was removed and created anew meanwhile.
+func (w *world) staleWriter(cl *call) bool {
+	for _, p := range w.s.Pauses {
+		if p.To <= cl.end && p.To-p.From >= time.Second && p.Inside("agentstorage.(*Torrent).WritePiece") {
+			return true
+		}
+	}
+	return false
+}
+
+// describeDiff says where a cached copy departs from the blob, in pieces.
+func describeDiff(got, want []byte, pieceLen int64) string {
+	if len(got) != len(want) {
+		return fmt.Sprintf("length %d, want %d", len(got), len(want))
+	}
+	var bad []string
+	for off := int64(0); off < int64(len(want)); off += pieceLen {
+		end := min(off+pieceLen, int64(len(want)))
+		if !bytes.Equal(got[off:end], want[off:end]) {
+			kind := "differs"
+			if bytes.Equal(got[off:end], make([]byte, end-off)) {
+				kind = "all zero"
+			}
+			bad = append(bad, fmt.Sprintf("piece %d %s", off/pieceLen, kind))
+		}
+	}
+	return fmt.Sprintf("%d bytes, piece length %d: %s", len(want), pieceLen, strings.Join(bad, ", "))
+}
+
 var ihCache = map[string]core.InfoHash{}
 
 func infoHashOf(s *simrt.Sim, w *world, bi int) core.InfoHash {
@@ -353,8 +408,8 @@ func TestC17(t *testing.T) {
 		Config: func(string) simrt.Config { return simrt.Config{MaxSteps: 20_000_000, Horizon: 24 * time.Hour} },
 		Real: []string{"lib/torrent/scheduler (event loop, state, dispatcher completion notice, reload, stop)", "agentstorage / originstorage, CADownloadStore / CAStore",
 			"tracker server + local peer store", "origin blobserver metainfo endpoints", "announce / metainfo clients"},
-		Stub: []string{"TCP (simnet) and HTTP (simhttp) transports", "write-back manager (no-op)", "health-check filter (identity)"},
-		Rule: "one run = 1-2 agents x 1-4 client tasks x 1-3 Download calls over 1-3 real blobs + one unknown digest, with RemoveTorrent at drawn instants and at the arrival of the last piece, idle limits of seconds, and (60% of runs) Stop / Reload / unreachable seeder / stalled connections / HTTP faults / paused tasks; non-trivial = >=1 contested scheduling decision or fired fault",
+		Stub:        []string{"TCP (simnet) and HTTP (simhttp) transports", "write-back manager (no-op)", "health-check filter (identity)"},
+		Rule:        "one run = 1-2 agents x 1-4 client tasks x 1-3 Download calls over 1-3 real blobs + one unknown digest, with RemoveTorrent at drawn instants and at the arrival of the last piece, idle limits of seconds, and (60% of runs) Stop / Reload / unreachable seeder / stalled connections / HTTP faults / paused tasks; non-trivial = >=1 contested scheduling decision or fired fault",
 		Assumptions: []string{"bound = 4 x (leecher idle limit + conn idle + 2 preemption + blacklist + 2 announce + handshake + dial + http timeouts) x (calls+1) after faults stop"},
 	})
 }
